@@ -48,7 +48,7 @@ type Work struct {
 	Cut     int    `json:"cut,omitempty"`      // >0: the source text handed to the interpreter ends after this many bytes (a program that arrives truncated)
 }
 
-const nSites = 113
+const nSites = 118
 const nWraps = 7
 
 func siteSrc(k int, id string) string {
@@ -282,6 +282,18 @@ func siteSrc(k int, id string) string {
 		return "x" + id + " = -hid(\"x\")\ny" + id + " = !hid([1])\nz" + id + " = ^hid(1.5)\nw" + id + " = -hid(nil)\nv" + id + " = ^hid({})"
 	case 111:
 		return "x" + id + " = hid(1) ** hid(-1)\ny" + id + " = hid(\"ab\") * hid(-1)\nz" + id + " = hid([1]) * 2\nw" + id + " = hid(7) / hid(\"0\")\nv" + id + " = hid(7) % hid(0.5)"
+	// what a catch block can do with the thrown value when that value is odd
+	case 112:
+		return "try { throw nil } catch e" + id + " {\nx" + id + " = [e" + id + "]\ny" + id + " = e" + id + ".Message\nz" + id + " = \"\" + e" + id + "\n}"
+	case 113:
+		return "func t" + id + "() { throw hid(nil) }\nfunc g" + id + "() { try { t" + id + "() } catch e" + id + " { return e" + id + " }; return 0 }\nx" + id + " = g" + id + "()\ntry { throw h(" + id + ") } catch e" + id + " { y" + id + " = {\"k\": e" + id + "} }"
+	case 114:
+		return "try { throw [hid(nil)] } catch e" + id + " { x" + id + " = e" + id + "[0] }\ntry { throw hf() } catch e" + id + " { e" + id + "() }\ntry { throw make(chan int64) } catch e" + id + " { close(e" + id + ") }"
+	// for-in over things that are not containers, with one and two loop variables
+	case 115:
+		return "it" + id + " = func() { return [h(" + id + ")] }\nfor a" + id + ", b" + id + " in it" + id + " { }\nfor a" + id + " in it" + id + " { break }"
+	case 116:
+		return "for a" + id + ", b" + id + " in [hid(1)] { }\nfor a" + id + ", b" + id + " in hid(\"str\") { }\nfor a" + id + " in hid(nil) { }\nfor k" + id + ", v" + id + " in hid(5) { }\nfor a" + id + ", b" + id + " in hf() { }"
 	default:
 		return "x" + id + " = hid(1) & hid(\"z\")\ny" + id + " = hid(1.5) | hid(nil)\nz" + id + " = hid({}) ^ 1\nw" + id + " = hid([1, 2]) + hid({\"a\": 1})\nv" + id + " = hid(nil) < hid([1])\nu" + id + " = hid(func() { }) == hid(func() { })"
 	}
